@@ -543,10 +543,28 @@ def rule_g(rep: Report, idx: SourceIndex, nm: NodeModel) -> None:
 					for n in ast.walk(g.node):
 						if isinstance(n, ast.Call) and unparse(n.func).split('.')[-1] in ('takewhile', 'dropwhile'):
 							stops.append((g, n, unparse(n.func)))
+				# dropping children by POSITION (`xs[1:]`) is sound only when the condition looks at that very position (`xs[0].is_a(DocString)`); a
+				# condition about something else (a docstring found anywhere in the block) drops whatever happens to stand first
+				from vlib.match import atoms as _atoms
+				for g in helper_closure(f, 2):
+					for sub in [n for n in ast.walk(g.node) if isinstance(n, ast.Subscript) and isinstance(n.slice, ast.Slice)]:
+						lo, hi = sub.slice.lower, sub.slice.upper
+						drops = (isinstance(lo, ast.Constant) and isinstance(lo.value, int) and lo.value != 0) or (isinstance(hi, (ast.Constant, ast.UnaryOp)))
+						if not drops or not isinstance(sub.value, (ast.Name, ast.Attribute, ast.Call)):
+							continue
+						lst = unparse(sub.value)
+						if isinstance(sub.value, ast.Attribute) and sub.value.attr in ('tokens',):
+							continue  # a string
+						conds = [a for a, _ in _atoms(g.node, sub)]
+						par_if = [x for x in ast.walk(g.node) if isinstance(x, ast.IfExp) and any(sub is y for y in ast.walk(x.body)) or isinstance(x, ast.IfExp) and any(sub is y for y in ast.walk(x.orelse))]
+						conds += [x.test for x in par_if]
+						looks_at_position = any(isinstance(y, ast.Subscript) and unparse(y.value) == lst and not isinstance(y.slice, ast.Slice) for c_ in conds for y in ast.walk(c_))
+						if not looks_at_position:
+							stops.append((g, sub, f'positional slice `{unparse(sub)[:50]}` under {[unparse(c_)[:50] for c_ in conds] or "no condition"}'))
 				key = f'{c.name}.{name}'
 				if stops:
 					g, n, how = stops[0]
-					r.violate(key, (g.module.relpath, n.lineno), f'{c.name}.{name} collects its children with a loop that stops early ({how}): every child after the one that triggers the stop is missing from the node tree although CPython keeps it (e.g. a base class listed after `Generic[T]`)', unparse(n)[:80])
+					r.violate(key, (g.module.relpath, n.lineno), f'{c.name}.{name} selects its children by position rather than one by one ({how}): a child is dropped because of where it stands (after the element that stops the loop, or first in the list), not because of what it is, although CPython keeps it (a base class listed after `Generic[T]`; the first statement of a body whose docstring comes later)', unparse(n)[:80])
 				else:
 					r.ok(key, f.where)
 
